@@ -23,8 +23,8 @@ RULE = ('(a) every typed attribute (own and forwarded; found by reflection '
         'invalid value, or a perturbation; distinct = fingerprint of (case '
         'kind, spec seed, attribute, value).')
 FLOOR = {'quick': 15000, 'thorough': 400000}
-REQUIRED_REACH = ['OptionProperty.__set__', 'BaseDiffXSection.__eq__']
-REQUIRED_COUNTERS = ['valid_assignments', 'invalid_assignments_rejected',
+REQUIRED_REACH = ['dom/properties.py:', 'dom/objects.py:']
+REQUIRED_COUNTERS = ['constructor_keywords_rejected', 'valid_assignments', 'invalid_assignments_rejected',
                      'unknown_names_rejected', 'equal_pairs',
                      'perturbations_checked']
 ASSUMPTIONS = [
@@ -50,7 +50,7 @@ STRUCTURAL = {'options', 'section_id', 'subsections', 'changes', 'files',
               'meta_section', 'preamble_section', 'diff_section', '_level',
               '_content'}
 
-POOL = [None, 0, 5, -1, 2.5, True, 'unix', 'dos', 'mac', 'text/plain',
+POOL = [None, 0, 0.0, 4, 4.0, 5, 5.0, -1, 2.5, True, 1.0, 1, 'unix', 'dos', 'mac', 'text/plain',
         'text/html', 'json', 'yaml', 'text', 'binary', 'patch', '1.0', '2.0',
         'utf-8', 'nope', '', 'x', b'', b'bytes\n', bytearray(b'x'), [], ['a'],
         {}, {'k': 'v'}, (), object, 1 << 70, 'é']
@@ -221,6 +221,63 @@ def check_unknown_names(spec, seed, obs):
                               % label, case)
 
 
+CTOR_BAD = [None, 5, 2.5, b'x', 'nope-choice', [], {}, ()]
+
+
+def check_constructor_kwargs(spec, seed, obs):
+    """Keyword attributes of the constructors / add_change / add_file are
+    typed assignments too: an invalid value (incl. None) or an unknown name
+    (whatever its value) must raise and must not add anything to the tree.
+    """
+    from pydiffx.dom import DiffX
+    from pydiffx.dom.objects import DiffXChangeSection, DiffXFileSection
+    rng = random.Random(seed)
+    tree = trees.build(spec, rng)
+    if not tree.changes:
+        tree.add_change()
+    entries = [('DiffX', DiffX, lambda **kw: DiffX(**kw)),
+               ('add_change', DiffXChangeSection, tree.add_change),
+               ('add_file', DiffXFileSection, tree.changes[0].add_file)]
+    for label, cls, fn in entries:
+        cands = []
+        for attr in typed_attrs(cls):
+            decl = declared(cls, attr)
+            if decl is None or decl[0] is None:
+                continue
+            for v in CTOR_BAD:
+                if decl[0] is int and isinstance(v, bool):
+                    continue
+                if not is_valid(decl, v):
+                    cands.append((attr, v))
+        for name in UNKNOWN:
+            if name and name not in dir(cls) and name.isidentifier():
+                cands.append((name, None))
+                cands.append((name, 'v'))
+        for attr, v in cands:
+            before = treesnap.snapshot(tree)
+            exc = None
+            try:
+                fn(**{attr: copy.deepcopy(v)})
+            except Exception as e:
+                exc = e
+            case = {'spec': spec, 'build_seed': seed, 'ctor': label,
+                    'attribute': attr, 'value': repr(v)}
+            obs.case(('ctor', seed, label, attr, repr(v)), nontrivial=True)
+            if exc is None:
+                obs.violation('constructor_accepted_invalid_keyword:%s:%s' % (
+                    label, 'None' if v is None else 'value'), case)
+                # keep going with a fresh tree: this one was modified
+                tree = trees.build(spec, random.Random(seed))
+                if not tree.changes:
+                    tree.add_change()
+                return
+            obs.count('constructor_keywords_rejected')
+            if not treesnap.equal(before, treesnap.snapshot(tree)):
+                obs.violation('rejected_constructor_keyword_changed_tree:%s'
+                              % label, case)
+                return
+
+
 def perturb(value):
     if isinstance(value, bool):
         return 'changed'
@@ -269,6 +326,7 @@ def check_equality(spec, seed, obs, other_tree=None):
         fields = [('option', k) for k in list(sec.options)]
         if hasattr(sec, 'content'):
             fields.append(('content', None))
+        fields.extend(('del_option', k) for k in list(sec.options))
         # also an option that is absent on both
         fields.append(('new_option', 'x-extra'))
         for what, key in fields:
@@ -277,6 +335,8 @@ def check_equality(spec, seed, obs, other_tree=None):
                 if hasattr(sec, 'content') else None
             if what == 'option':
                 sec.options[key] = perturb(sec.options[key])
+            elif what == 'del_option':
+                del sec.options[key]
             elif what == 'new_option':
                 sec.options[key] = 'Z'
             else:
@@ -329,6 +389,7 @@ def run(ctx):
         seed = rng.randrange(1 << 30)
         check_assignments(spec, seed, obs)
         check_unknown_names(spec, seed, obs)
+        check_constructor_kwargs(spec, seed, obs)
         if k == 0 and ctx.index == 0:
             obs.sample({'assignment': ['DiffXPreambleSection', 'indent',
                                        "'x'"], 'expect': 'raises, tree '
@@ -343,7 +404,9 @@ def run(ctx):
 
 def replay(case, obs):
     spec, seed = case['spec'], case['build_seed']
-    if 'attribute' in case:
+    if 'ctor' in case:
+        check_constructor_kwargs(spec, seed, obs)
+    elif 'attribute' in case:
         check_assignments(spec, seed, obs)
     elif 'call' in case:
         check_unknown_names(spec, seed, obs)
